@@ -18,6 +18,12 @@ pub open spec fn newest_min_at(s: Seq<R>, a: int, m: R) -> bool {
 // ------------------------------------------------------------------ HighestIndex
 //@extract src/methods/highest_lowest_index.rs struct:HighestIndex
 //@end
+impl HighestIndex {
+//@extract src/methods/highest_lowest_index.rs impl[Peekable<<Self as Method>::Output> for HighestIndex]::peek pub
+//@sig pub fn peek(&self) -> (r: PeriodType)
+	ensures r == self.index,
+//@end
+}
 impl Method for HighestIndex {
 	type Params = PeriodType;
 	type Input = ValueType;
@@ -76,6 +82,12 @@ impl Method for HighestIndex {
 // ------------------------------------------------------------------ LowestIndex
 //@extract src/methods/highest_lowest_index.rs struct:LowestIndex
 //@end
+impl LowestIndex {
+//@extract src/methods/highest_lowest_index.rs impl[Peekable<<Self as Method>::Output> for LowestIndex]::peek pub
+//@sig pub fn peek(&self) -> (r: PeriodType)
+	ensures r == self.index,
+//@end
+}
 impl Method for LowestIndex {
 	type Params = PeriodType;
 	type Input = ValueType;
